@@ -61,6 +61,16 @@ func calleeShort(c *ssa.CallCommon) string {
 		return f.Name()
 	case *ssa.MakeClosure:
 		return f.Fn.Name()
+	case *ssa.UnOp:
+		// a call through a function-typed struct field (opts.newCipher(key)): named by the field,
+		// not by the SSA register that happens to hold the loaded function value
+		if fa, ok := f.X.(*ssa.FieldAddr); ok {
+			if pt, ok := fa.X.Type().Underlying().(*types.Pointer); ok {
+				if st, ok := pt.Elem().Underlying().(*types.Struct); ok && fa.Field < st.NumFields() {
+					return st.Field(fa.Field).Name()
+				}
+			}
+		}
 	}
 	return c.Value.Name()
 }
